@@ -940,6 +940,123 @@ NARROW_PAT = (r'^(NTT_Goldilocks::|BR\(|PoseidonGoldilocks::(merkletree|linear_h
 ADDRESS_SINKS = re.compile(r'^(llvm\.mem(cpy|set|move)\.|malloc$|calloc$|_Znam$|_Znwm$|aligned_alloc$|llvm\.x86\.avx(2|512)\.(mask\.)?(gather|scatter))')
 
 
+FP_PASS = ('fadd', 'fsub', 'fmul', 'fdiv', 'frem', 'fneg', 'fpext', 'fptrunc', 'select', 'phi', 'freeze')
+FP_ROUNDERS = re.compile(r'^(llvm\.(ceil|floor|round|trunc|rint|nearbyint|fabs|fmuladd|fma|sqrt|minnum|maxnum)\.|ceilf?$|floorf?$|roundf?$|truncf?$|'
+                         r'_ZSt(4ceil|5floor|5round|5trunc)[fd]$)')
+
+
+def rule_fpround(rep, family_pat, configs=('avx2', 'avx512'), floor_double=0):
+    """R-FPROUND (all shapes): an integer converted to floating point whose value comes back as an integer (a block count written
+    as ceil(size / (float)RATE), floor((n - 1) / 2) + 1 on doubles ...) is exact only below 2^mantissa.  Single precision (24 bits)
+    is refuted unless a dominating branch bounds the operand below 2^24: the property quantifies over every size.  Double
+    precision (53 bits) is accepted and counted: 2^53 elements exceed any address space."""
+    pat = re.compile(family_pat)
+    nsites = 0
+    ndouble = 0
+    seen_sites = set()
+    for cfg in configs:
+        try:
+            mod = front.module(cfg, omp=True, sroa=True)
+        except Exception:
+            continue
+        names = []
+        files = set()
+        for n in mod.funcs:
+            if pat.search(mod.dem.get(n, n)) and not is_local_entity(mod.dem.get(n, n)):
+                names.append(n)
+                try:
+                    files.add(mod.fn_loc(n)[0])
+                except Exception:
+                    pass
+        for n in mod.funcs:
+            if 'omp_outlined' in n or is_local_entity(mod.dem.get(n, '')):
+                try:
+                    if mod.fn_loc(n)[0] in files and n not in names:
+                        names.append(n)
+                except Exception:
+                    pass
+        # integer-argument overloads of the rounding functions the family calls (std::floor<unsigned long> converts inside)
+        extra = []
+        for n in list(names):
+            try:
+                fn = mod.fn(n)
+            except Exception:
+                continue
+            for lab, ins in fn.instrs():
+                c = callee_name(ins)
+                if c and c in mod.funcs and re.match(r'^_ZSt(4ceil|5floor|5round|5trunc)I', c) and c not in names and c not in extra:
+                    extra.append(c)
+        for name in names + extra:
+            try:
+                fi = info(mod, name)
+            except Exception:
+                continue
+            b_of = {}
+            for b in fi.fn.order:
+                for ins in fi.fn.blocks[b]:
+                    b_of[id(ins)] = b
+            for b in fi.fn.order:
+                for ins in fi.fn.blocks[b]:
+                    if ins.op not in ('uitofp', 'sitofp') or not (ins.x and ins.x[0] == 'i' and ins.x[1] >= 32) or ins.ty[0] != 'f':
+                        continue
+                    # forward slice through floating-point arithmetic; the narrowest format on the way decides the mantissa
+                    mant = {16: 11, 32: 24, 64: 53, 80: 64, 128: 113}.get(ins.ty[1], 24)
+                    back = None
+                    todo = [(ins.dst, mant)]
+                    seen = {}
+                    while todo and back is None:
+                        r_, m_ = todo.pop()
+                        if r_ in seen and seen[r_] <= m_:
+                            continue
+                        seen[r_] = m_
+                        for ub_, u in fi.users(r_):
+                            if u.op in ('fptoui', 'fptosi'):
+                                back = (u, m_)
+                                break
+                            if u.op in FP_PASS and u.dst:
+                                m2 = m_
+                                if u.op == 'fptrunc' and u.ty[0] == 'f':
+                                    m2 = min(m_, {16: 11, 32: 24, 64: 53}.get(u.ty[1], m_))
+                                todo.append((u.dst, m2))
+                            elif u.op in ('call', 'invoke') and u.dst:
+                                c = callee_name(u)
+                                if c and FP_ROUNDERS.match(c):
+                                    todo.append((u.dst, m_))
+                            elif u.op == 'ret' and name in extra:
+                                back = (u, m_)      # std::floor<integer>: the caller converts the result back
+                                break
+                    if back is None:
+                        continue
+                    site = loc(mod, ins, name)
+                    key = (mod.dem.get(name, name), site, back[1])
+                    if key in seen_sites:
+                        continue
+                    seen_sites.add(key)
+                    tag = 'fpround:%s@%s' % (mod.dem.get(name, name).split('(')[0], site)
+                    if back[1] >= 53:
+                        ndouble += 1
+                        rep.ok(tag, 'R-FPROUND', site, 'integer -> double -> integer: exact below 2^53 (more elements than any address space holds)')
+                        continue
+                    nsites += 1
+                    ub = _dominating_upper_bound(fi, b_of[id(ins)], ins.a[0][1]) if ins.a[0][0] == 'r' else None
+                    if ins.a[0][0] == 'i':
+                        ub = ins.a[0][1]
+                    if ub is not None and ub < (1 << back[1]):
+                        rep.ok(tag, 'R-FPROUND', site, 'integer -> %d-bit-mantissa float -> integer with the operand bounded by %d on every path to the conversion' % (back[1], ub))
+                    else:
+                        rep.refute(tag, 'R-FPROUND', site, 'a %d-bit integer goes through a floating-point format with a %d-bit mantissa and comes back as an integer (%s): '
+                                   'the value is rounded once it exceeds 2^%d, so counts / indices derived from it are wrong for larger sizes' % (
+                                       ins.x[1], back[1], loc(mod, back[0], name), back[1]))
+    rep.cov['fp_roundtrip_sites_single'] = nsites
+    rep.cov['fp_roundtrip_sites_double'] = ndouble
+    if floor_double:
+        rep.floor('R-FPROUND sites (double precision, confirmed on the pinned tree)', ndouble, floor_double)
+
+
+def rule_fpround_ntt(rep):
+    rule_fpround(rep, r'^(NTT_Goldilocks::|BR\()')
+
+
 def rule_narrow(rep, configs=('avx2', 'avx512')):
     """R-NARROW (all shapes): a shape-derived integer that is narrowed below 64 bits - an explicit truncation, or a loop-carried
     counter narrower than 32 bits - must not reach an address computation, a copy length or an allocation size inside the
